@@ -44,6 +44,11 @@ def run_module(path, ids, command, verbose):
         obs['listed'] = [l.split(' ')[-1] for l in listed]
         obs['verbose'] = verbose
         return obs, problems
+    if rs.get('action') == 'dump':
+        # the command word wins over a callable of the same name: one test function per enabled doctest
+        import re as _re
+        obs['dumped'] = _re.findall(r'^def (test_\S+?)\(', out, _re.M)
+        return obs, problems
     obs.update(n_total=rs['n_total'], n_passed=rs['n_passed'], n_failed=rs['n_failed'], n_skipped=rs['n_skipped'],
                failed=[e.unique_callname for e in rs['failed']])
     if rs['n_passed'] + rs['n_failed'] + rs['n_skipped'] != rs['n_total']:
@@ -104,6 +109,12 @@ def run(ctx):
             n = rng.randint(9, 40) if rng.random() < 0.08 else rng.randint(3, 8)
             jobs.append((tmp, idx, [rng.choice(K) for _ in range(n)], rng.choice(['functions', 'mixed', 'mixed']), rng.randint(0, 3)))
             idx += 1
+        # callables named like the runner's command words: the command still means what it says
+        for special in ('all', 'dump', 'list'):
+            for first in ('disabled', 'pass', 'fail_output', 'all_skipped'):
+                for second in ('pass', 'disabled'):
+                    jobs.append((tmp, idx, [first, second, 'pass'], 'special:' + special, idx % 4))
+                    idx += 1
         results = common.pmap(_worker, jobs)
         reqs = []
         meta = []
@@ -140,6 +151,10 @@ def run(ctx):
             elif cmd == 'list':
                 if obs['verbose'] >= 1 and obs['listed'] != [u for u, _, _ in ids]:
                     problems.append('list printed %r, collected doctests are %r' % (obs['listed'], [u for u, _, _ in ids]))
+            elif obs.get('action') == 'dump':
+                enabled = [u for u, _, k in ids if k != 'disabled']
+                if len(obs['dumped']) != len(enabled):
+                    problems.append('dump emitted %d test functions %r for %d enabled doctests %r' % (len(obs['dumped']), obs['dumped'], len(enabled), enabled))
             else:
                 total, npass, nfail, nskip, fidx, exitst = r
                 model = dict(n_total=total, n_passed=npass, n_failed=nfail, n_skipped=nskip, failed=[g[i] for i in fidx])
